@@ -14,15 +14,16 @@
    sched_gsmtime(si, fn, p3): -EBUSY (state untouched) when the inactive list is empty; else takes inactive.next, fills it and
    links it IN FRONT OF the first pending event with a HIGHER fn (llist_add_tail(lh, &cur->list)), else at the end: events with
    equal fn keep their request order.
-   sched_gsmtime_execute(fn): the `if (evt->fn == fn + SCHEDULE_AHEAD) {...} if (evt->fn > fn + SCHEDULE_AHEAD) break;` walk as
-   written (two separate ifs); a matching event is handed to tdma_schedule_set(SCHEDULE_AHEAD - SCHEDULE_LATENCY, si, p3) of
+   sched_gsmtime_execute(fn): fn_ahead = (fn + SCHEDULE_AHEAD) % GSM_MAX_FN, then the
+   `if (evt->fn == fn_ahead) {...} if (evt->fn > fn_ahead) break;` walk as written (two separate ifs); a matching event is handed to tdma_schedule_set(SCHEDULE_AHEAD - SCHEDULE_LATENCY, si, p3) of
    Model/TdmaSched.v - the int result is IGNORED by the code, the model keeps it in the list of handed-over events only -,
    unlinked and put at the HEAD of the inactive list (llist_add); returns the number of events handed over.
    sched_gsmtime_reset: every pending event, front to back, is put at the head of the inactive list.
 
-   Integer widths.  fn is uint32_t; `fn + SCHEDULE_AHEAD` is computed in uint32 ([u32]); there is NO reduction modulo the GSM
-   hyperframe (GSM_MAX_FN = 2715648) anywhere in this file although the callers pass absolute frame numbers below GSM_MAX_FN and
-   l1_sync() passes l1s.current_time.fn, which wraps at GSM_MAX_FN: see theorem c08_gsm_frame01_refuted.  p3 uint16, the frame
+   Integer widths.  fn is uint32_t; `fn + SCHEDULE_AHEAD` is computed in uint32 ([u32]) and then reduced modulo the GSM hyperframe
+   (GSM_MAX_FN = 2715648, regenerated into Gen) - the callers pass absolute frame numbers below GSM_MAX_FN and l1_sync() passes
+   l1s.current_time.fn, which wraps at GSM_MAX_FN (before commit 9c8dce2 the sum was not reduced and events for the frames 0 and 1
+   were never handed over).  The stored evt->fn itself is never reduced: a request with fn >= GSM_MAX_FN never matches.  p3 uint16, the frame
    offset handed to tdma_schedule_set is a uint8_t parameter ([u8]).  Conversions of arguments happen at the call (wire decoder).
 
    The frame interrupt (sync.c l1_sync): tdma_sched_execute(); ...; sched_gsmtime_execute(l1s.current_time.fn); tdma_sched_advance(). *)
@@ -90,7 +91,8 @@ Fixpoint gexec_walk (tgt off : Z) (l : list gev) (ts : sched) (inact : list nat)
   end.
 
 (* int sched_gsmtime_execute(uint32_t fn) *)
-Definition gexec_target (fn : Z) : Z := u32 (fn + c_SCHEDULE_AHEAD).
+(* uint32_t fn_ahead = (fn + SCHEDULE_AHEAD) % GSM_MAX_FN; *)
+Definition gexec_target (fn : Z) : Z := (u32 (fn + c_SCHEDULE_AHEAD)) mod c_GSM_MAX_FN.
 Definition gexec_offset : Z := u8 (c_SCHEDULE_AHEAD - c_SCHEDULE_LATENCY).
 
 Definition sched_gsmtime_execute (ts : sched) (gs : gstate) (fn : Z) : res (sched * gstate * Z * list (gev * Z)) :=
